@@ -6,6 +6,7 @@ import MythVerif.Proofs.WsQueueTsoStepR1
 import MythVerif.Proofs.WsQueueTsoStepR2
 import MythVerif.Proofs.WsQueueTsoStepR3
 import MythVerif.Proofs.WsQueueTsoStepF8
+import MythVerif.Proofs.WsQueueTsoStepC1
 import MythVerif.Proofs.WsQueueTsoStepU1
 import MythVerif.Proofs.WsQueueTsoStepU2
 import MythVerif.Proofs.WsQueueTsoStepT1
@@ -71,6 +72,11 @@ theorem stepO_inv (s s' : St) : Inv s → stepO s = some s' → Inv s' := by
   | pt7 e b => exact o_pt7 s s' e b h hpc hs
   | pt8 e b => exact o_pt8 s s' e b h hpc hs
   | pt9 => exact o_pt9 s s' h hpc hs
+  | assertFail => simp [stepO, hpc] at hs
+  | cll => exact o_cll s s' h hpc hs
+  | cl1 => exact o_cl1 s s' h hpc hs
+  | cl2 => exact o_cl2 s s' h hpc hs
+  | cl3 => exact o_cl3 s s' h hpc hs
 
 theorem stepT_inv (s s' : St) (p : Pid) : Inv s → stepT s p = some s' → Inv s' := by
   intro h hs
@@ -124,7 +130,7 @@ theorem stepT_inv (s s' : St) (p : Pid) : Inv s → stepT s p = some s' → Inv 
   | vr => exact t_vr s s' p h hpc hs
 
 set_option maxHeartbeats 4000000 in
-theorem callO_inv (s s' : St) (pc : OPc) (hpc : (∃ e, pc = .pu0 e) ∨ pc = .pq ∨ (∃ e, pc = .ptl e)) :
+theorem callO_inv (s s' : St) (pc : OPc) (hpc : (∃ e, pc = .pu0 e) ∨ pc = .pq ∨ pc = .cll ∨ (∃ e, pc = .ptl e)) :
     Inv s → (match s.opc with | .idle => some { s with opc := pc } | _ => none) = some s' → Inv s' := by
   intro h hs
   split at hs
@@ -132,7 +138,7 @@ theorem callO_inv (s s' : St) (pc : OPc) (hpc : (∃ e, pc = .pu0 e) ∨ pc = .p
     simp at hs; subst hs
     cases h
     simp only [heq, ownerLocked, carry, resetting, ownerFlight] at *
-    rcases hpc with ⟨e, rfl⟩ | rfl | ⟨e, rfl⟩
+    rcases hpc with ⟨e, rfl⟩ | rfl | rfl | ⟨e, rfl⟩
     all_goals tso_finish
   · simp at hs
 
@@ -188,7 +194,8 @@ theorem step_inv (s : St) (l : Lbl) (s' : St) : Inv s → step s l = some s' →
   cases l with
   | oPush e => exact callO_inv s s' _ (Or.inl ⟨e, rfl⟩) h hs
   | oPop => exact callO_inv s s' _ (Or.inr (Or.inl rfl)) h hs
-  | oPut e => exact callO_inv s s' _ (Or.inr (Or.inr ⟨e, rfl⟩)) h hs
+  | oPut e => exact callO_inv s s' _ (Or.inr (Or.inr (Or.inr ⟨e, rfl⟩))) h hs
+  | oClear => exact callO_inv s s' _ (Or.inr (Or.inr (Or.inl rfl))) h hs
   | o => exact stepO_inv s s' h hs
   | flushO => exact flushO_inv s s' h hs
   | tTake p => exact callT_inv s s' p _ (Or.inl rfl) h hs
